@@ -1,11 +1,22 @@
-import OW.Proofs.SimGraph
+import OW.Proofs.SimBridge
 /-!
 C07 — ow-sim executes a model graph exactly like the sequential reference semantics.
-Models: OW/Sim/Graph.lean (`refSem` = specification, `exec`/`owsim` = implementation-shaped), OW/Sim/Writer.lean
-(writer protocol). Only the property theorems; helper lemmas are in OW/Proofs/SimGraph.lean and OW/Proofs/SimWriter.lean.
+
+Models (core Lean, executed by the driver against the real `ow-sim` binary on every run):
+* OW/Sim/Graph.lean — `refSem` (SPECIFICATION: generations in order, each node once, node input = stored input or zeros
+  plus the linked outputs, links read through their global node columns) and `exec`/`owsimSched`/`owsim`
+  (IMPLEMENTATION-SHAPED: lazily loaded generations keyed by (model, generation) with row ranges from `batches`, the
+  `nextLink` cursor with `linkGen > i → break`, `AddTo`, `WriteData` at `generationLocation`, `PurgeGeneration`);
+* OW/Sim/Writer.lean — the writer protocol (main loop, one writer goroutine per generation, unbuffered `writingDone`).
+Only the property theorems are stated here; the lemmas are in OW/Proofs/SimGraph.lean, SimWriter.lean, SimBridge.lean.
+The kernel is an ARBITRARY function `run : RunFn α` over an arbitrary `Num α` in every theorem.
 -/
 namespace OW.Props.C07
 open OW OW.Sim
+
+variable {α : Type} [Num α]
+
+/-! ## T3 — batches -/
 
 /-- **T3 `batches_rows`.** For cumulative (non-decreasing) batch counts, the row ranges
 `[batches[g-1], batches[g])` of the generations partition `[0, total)`: every row below the total lies in exactly one
@@ -29,5 +40,234 @@ theorem batches_rows (b : List Nat) (hlen : 1 ≤ b.length) (hm : MonoBatches b)
 /-- non-vacuity: three generations with an empty middle batch, rows 0,1 | (none) | 2,3,4 -/
 example : MonoBatches [2, 2, 5] ∧ inGen [2, 2, 5] 0 1 ∧ ¬ inGen [2, 2, 5] 1 2 ∧ inGen [2, 2, 5] 2 2 ∧
     totalOf [2, 2, 5] = 5 := by decide
+
+/-! ## T1 — ow-sim = reference semantics -/
+
+/-- The specification is what it says: in the reference result, the entry of every node (model `m`, node `k` of
+generation `gen`) is that node run ONCE on its own parameters and initial states with the input "stored input (or
+zeros) plus, in link order, the output of every node linked to it", all taken from the reference result itself. -/
+theorem refSem_node_equations (run : RunFn α) (g : Graph α) (hv : ValidGraph g) {m gen k : Nat}
+    (hm : m < g.models.length) (hk : k < countOf g m gen) :
+    refDone run g g.genCount m (rowOf g m gen k) =
+      ⟨nodeInput g (refDone run g g.genCount) m (rowOf g m gen k),
+       run (g.model m).name ((g.model m).params.getD (rowOf g m gen k) [])
+         (nodeInput g (refDone run g g.genCount) m (rowOf g m gen k))
+         ((g.model m).states.getD (rowOf g m gen k) [])⟩ :=
+  ref_fixed run g hv hm hk
+
+/-- **T1 `owsim_eq_ref`.** For every valid model-graph file and every kernel function, the output file produced by the
+implementation-shaped semantics (outputs, final states, final inputs where requested, each at the node's global row;
+which datasets exist) equals the sequential reference semantics. -/
+theorem owsim_eq_ref (run : RunFn α) (g : Graph α) (hv : ValidGraph g) : owsim run g = refSem run g :=
+  owsimSched_eq_ref run hv (earlySchedule_safe _)
+
+/-- **T1 for every schedule of the data actions.** The same holds for EVERY complete interleaving of the main loop's
+actions (`run i`, `links i`) with the writers' actions (`write g`, `purge k`) in which: the main loop is sequential; a
+generation is written once, after it has run and before it is purged; a generation is purged only after it is written
+and its outgoing links are applied. -/
+theorem owsim_eq_ref_safe_schedule (run : RunFn α) (g : Graph α) (hv : ValidGraph g) (acts : List Act)
+    (hs : SafeComplete g.genCount acts) : owsimSched run g acts = refSem run g :=
+  owsimSched_eq_ref run hv hs
+
+/-- **T1 for every scheduling of the goroutines.** Every complete run of the writer-protocol transition system (any
+interleaving of the main goroutine, the writer goroutines and the channel rendezvous, including bounced tokens) induces
+a schedule of data actions, and the output file of that schedule is the reference result. -/
+theorem owsim_eq_ref_every_interleaving (run : RunFn α) (g : Graph α) (hv : ValidGraph g)
+    {ls : List Writer.Label} {s : Writer.State} (hr : Writer.Run g.genCount Writer.init ls s)
+    (he : s.mpc = .exited) : owsimSched run g (ls.flatMap Writer.project) = refSem run g :=
+  owsimSched_eq_ref run hv (Writer.run_safeComplete hv.genPos hr he)
+
+/-- a concrete 3-generation graph: model A has nodes 0,1 in generation 0 and node 2 in generation 2 (empty batch in
+generation 1), model B (no stored inputs) has node 0 in generation 1 and node 1 in generation 2; fan-in (two links into
+input 0 of B0), fan-out (A0 feeds B0 and B1), a chain A→B→A. -/
+def g3 : Graph α :=
+  { T := 2
+    models := [
+      { name := "A", nInputs := 1, batches := [2, 2, 3], params := [[], [], []], states := [[], [], []],
+        inputs := some [[[Num.one, Num.one]], [[Num.zero, Num.one]], [[Num.zero, Num.zero]]] },
+      { name := "B", nInputs := 2, batches := [0, 1, 2], params := [[], []], states := [[], []], inputs := none } ]
+    links := [
+      ⟨0, 0, 0, 0, 0, 1, 1, 0, 0, 0⟩, ⟨0, 0, 1, 1, 0, 1, 1, 0, 0, 0⟩, ⟨0, 0, 0, 0, 0, 2, 1, 1, 0, 1⟩,
+      ⟨1, 1, 0, 0, 0, 2, 0, 2, 0, 0⟩ ] }
+
+/-- non-vacuity: the graph is valid, so T1 applies to it for every kernel -/
+theorem g3_valid : ValidGraph (g3 : Graph α) := of_decide_eq_true rfl
+
+example (run : RunFn α) : owsim run g3 = refSem run g3 := owsim_eq_ref run g3 g3_valid
+
+/-- non-vacuity: the sorted-links hypothesis matters. With the two generation-0 links placed AFTER the generation-1
+link, the cursor stops at the generation-1 link in iteration 0 (`linkGen > i → break`): the graph is not valid. -/
+example : ¬ ValidGraph ({ (g3 : Graph α) with links := [⟨1, 1, 0, 0, 0, 2, 0, 2, 0, 0⟩, ⟨0, 0, 0, 0, 0, 1, 1, 0, 0, 0⟩] }) :=
+  of_decide_eq_false rfl
+
+/-! ## T2 — writer protocol, for every number of generations `G ≥ 1` and every reachable state -/
+
+open Writer
+
+/-- **written generations form a prefix, each written exactly once** -/
+theorem writer_written_prefix_once {G : Nat} (hG : 1 ≤ G) {s : State} (h : Reachable G s) :
+    ∃ w, w ≤ G ∧ ∀ g, s.writes g = if g < w then 1 else 0 := by
+  obtain ⟨w, hd, I⟩ := reachable_inv hG h
+  exact ⟨w, I.wle, I.writes⟩
+
+/-- **`purge k` only when generation `k` is written, its outgoing links are applied, and the main loop is past it**
+(the main loop, at generation `i`, only touches generations `≥ i`) -/
+theorem writer_purge_safe {G : Nat} (hG : 1 ≤ G) {s s' : State} {h k : Nat} (hr : Reachable G s)
+    (hs : step G s (.purge h k) = some s') :
+    s.writes k = 1 ∧ s.links k = true ∧ (∀ i, s.mpc = .run i ∨ s.mpc = .links i → k < i) := by
+  obtain ⟨w, hd, I⟩ := reachable_inv hG hr
+  obtain ⟨e, _, _⟩ := invP_purge I hs
+  subst e
+  obtain ⟨h1, _, h3⟩ := I.hok
+  obtain ⟨e, hw⟩ := h3
+  have hsa := spawned_le_applied G s.mpc
+  have hk : k < applied G s.mpc := by omega
+  refine ⟨by rw [I.writes k]; simp; omega, by rw [I.links k]; simp [hk], ?_⟩
+  intro i hi
+  rcases hi with hi | hi <;> (rw [hi] at hk; exact hk)
+
+/-- a generation that has been purged was written before and its links were applied -/
+theorem writer_purged_written {G : Nat} (hG : 1 ≤ G) {s : State} (hr : Reachable G s) {k : Nat}
+    (hp : 0 < s.purges k) : s.writes k = 1 ∧ s.links k = true := by
+  obtain ⟨w, hd, I⟩ := reachable_inv hG hr
+  obtain ⟨a, b⟩ := I.purges k hp
+  exact ⟨by rw [I.writes k]; simp [a], by rw [I.links k]; simp [b]⟩
+
+/-- **tokens are never lost or duplicated**: at most one writer is in a pc other than not-spawned / waiting / done
+(i.e. holds a token or is writing); while one is, the main goroutine holds nothing; and once W(0) exists there is
+always exactly one holder (a writer, or the main goroutine holding a token / having received the last one) -/
+theorem writer_token_unique {G : Nat} (hG : 1 ≤ G) {s : State} (hr : Reachable G s) :
+    (∀ g1 g2, active (s.wpc g1) → active (s.wpc g2) → g1 = g2) ∧
+    (∀ g, active (s.wpc g) → mainFree s.mpc) ∧
+    (s.wpc 0 ≠ .notSpawned → (∃ g, g < G ∧ active (s.wpc g)) ∨ ¬ mainFree s.mpc) := by
+  obtain ⟨w, hd, I⟩ := reachable_inv hG hr
+  refine ⟨?_, ?_, ?_⟩
+  · intro g1 g2 a1 a2
+    have e1 := holder_of_active I rfl a1
+    have e2 := holder_of_active I rfl a2
+    rw [e1] at e2
+    cases e2; rfl
+  · intro g a
+    have e := holder_of_active I rfl a
+    subst e
+    exact I.hok.2.1
+  · intro h0
+    cases hd with
+    | some hp =>
+      obtain ⟨h, p⟩ := hp
+      obtain ⟨h1, _, h3⟩ := I.hok
+      have hs := spawned_le G I.mok
+      refine Or.inl ⟨h, by omega, ?_⟩
+      rw [I.wpc h, expected_self h1]
+      exact pcOK_active h3
+    | none =>
+      rcases I.hok with ⟨h1, _⟩ | ⟨h1, _⟩ | ⟨k, h1, _⟩
+      · exfalso; apply h0; rw [I.wpc 0, h1]; simp [expected, spawned]
+      · exact Or.inr (fun a => a.1 h1)
+      · exact Or.inr (fun a => a.2 k h1)
+
+/-- **no stuck state**: in every reachable state in which the main goroutine has not exited some transition is enabled -/
+theorem writer_no_stuck {G : Nat} (hG : 1 ≤ G) {s : State} (hr : Reachable G s) (hne : s.mpc ≠ .exited) :
+    ∃ l s', step G s l = some s' := by
+  obtain ⟨w, hd, I⟩ := reachable_inv hG hr
+  obtain ⟨l, s', _, _, hs, _, _⟩ := progress I hne
+  exact ⟨l, s', hs⟩
+
+/-- **the main goroutine exits only when everything is done**: every generation written exactly once, every link
+batch applied, every writer finished — "every generation is written exactly once before the process exits" -/
+theorem writer_exit_all_written {G : Nat} (hG : 1 ≤ G) {s : State} (hr : Reachable G s) (he : s.mpc = .exited) :
+    terminal G s = true ∧ ∀ g, g < G → s.writes g = 1 := by
+  have hI := reachable_inv hG hr
+  have ht := exited_terminal hI he
+  refine ⟨ht, ?_⟩
+  intro g hg
+  simp only [terminal, he, decide_true, Bool.true_and, List.all_eq_true, List.mem_range] at ht
+  have := ht g hg
+  simp only [Bool.and_eq_true, decide_eq_true_eq] at this
+  exact this.1.2
+
+/-- **termination is always possible**: from every reachable state the terminal state (all written, main exited) is
+reachable -/
+theorem writer_terminal_reachable {G : Nat} (hG : 1 ≤ G) {s : State} (hr : Reachable G s) :
+    ∃ s', Reach G s s' ∧ s'.mpc = .exited ∧ terminal G s' = true := by
+  obtain ⟨w, hd, I⟩ := reachable_inv hG hr
+  obtain ⟨s', hre, he⟩ := reach_exit _ s w hd I (Nat.le_refl _)
+  exact ⟨s', hre, he, exited_terminal (reach_inv ⟨w, hd, I⟩ hre) he⟩
+
+/-- **no conflicting access** (C05-T3): whenever a writer is writing generation `g` or has just received token `k`
+(and is about to purge generation `k`), the main loop is past that generation: it runs generation `i > g` / `i > k`,
+or processes the links of generation `i ≥ g` (reading generation `i`, writing inputs of generations `> i`) / `i > k` -/
+theorem writer_no_conflict {G : Nat} (hG : 1 ≤ G) {s : State} (hr : Reachable G s) :
+    (∀ g, s.wpc g = .writing → (∀ i, s.mpc = .run i → g < i) ∧ (∀ i, s.mpc = .links i → g ≤ i)) ∧
+    (∀ h k, s.wpc h = .got k → ∀ i, s.mpc = .run i ∨ s.mpc = .links i → k < i) := by
+  obtain ⟨w, hd, I⟩ := reachable_inv hG hr
+  refine ⟨?_, ?_⟩
+  · intro g hw
+    have e := holder_of_active I hw trivial
+    subst e
+    obtain ⟨h1, _, _⟩ := I.hok
+    refine ⟨?_, ?_⟩ <;> (intro i hi; rw [hi] at h1; simp [spawned] at h1; omega)
+  · intro h k hw i hi
+    have e := holder_of_active I hw trivial
+    subst e
+    obtain ⟨h1, _, h3⟩ := I.hok
+    obtain ⟨e, hwh⟩ := h3
+    rcases hi with hi | hi <;> (rw [hi] at h1; simp [spawned] at h1; omega)
+
+/-! ### non-vacuity of T2: concrete runs with three generations -/
+
+/-- replay a list of labels -/
+def replay (G : Nat) : State → List Label → Option State
+  | s, [] => some s
+  | s, l :: ls => match step G s l with
+    | some s' => replay G s' ls
+    | none => none
+
+theorem replay_run {G : Nat} : ∀ (ls : List Label) (s s' : State), replay G s ls = some s' → Run G s ls s' := by
+  intro ls
+  induction ls with
+  | nil => intro s s' h; simp only [replay] at h; cases h; exact Run.nil s
+  | cons l rest ih =>
+    intro s s' h
+    simp only [replay] at h
+    split at h
+    · rename_i s1 hs; exact Run.cons hs (ih s1 s' h)
+    · cases h
+
+theorem run_reachable {G : Nat} {s s' : State} {ls : List Label} (h : Run G s ls s') (hs : Reachable G s) :
+    Reachable G s' := by
+  induction h with
+  | nil => exact hs
+  | cons h1 _ ih => exact ih (Reachable.step hs h1)
+
+/-- a run in which the main loop finishes first and token 0 BOUNCES: it is received by W(2) (which purges generation
+0, re-sends and sleeps) and then by the main goroutine's final loop (which re-sends it) before W(1) gets it -/
+def bounceRun : List Label :=
+  [.spawn 0, .links 0, .spawn 1, .links 1, .spawn 2, .links 2,
+   .wstart 0, .wdone 0, .sent 0,
+   .recv 2 0 .own, .purge 2 0, .resent 2 0, .mrecv 0 (.bouncer 2),
+   .recv 1 0 .main, .purge 1 0, .wstart 1, .wdone 1, .sent 1,
+   .recv 2 1 .own, .purge 2 1, .wstart 2, .wdone 2, .sent 2, .mrecv 2 .own]
+
+example : (replay 3 init bounceRun).map (·.mpc) = some .exited := by decide
+
+example : (replay 3 init bounceRun).map (fun s => (s.writes 0, s.writes 1, s.writes 2, s.purges 0, s.purges 1)) =
+    some (1, 1, 1, 2, 1) := by decide
+
+/-- the bounced run is a run of the system, so by `owsim_eq_ref_every_interleaving` the schedule it induces
+(`run 0, links 0, run 1, links 1, run 2, links 2, write 0, purge 0, purge 0, write 1, purge 1, write 2`) yields the
+reference result on the 3-generation graph, for every kernel -/
+example (run : RunFn α) : owsimSched run g3 (bounceRun.flatMap Writer.project) = refSem run g3 := by
+  have hv : ValidGraph (g3 : Graph α) := g3_valid
+  cases h : replay 3 init bounceRun with
+  | none => exact absurd h (by decide)
+  | some s =>
+    have he : s.mpc = .exited := by
+      have : (replay 3 init bounceRun).map (·.mpc) = some .exited := by decide
+      rw [h] at this; simpa using this
+    exact owsim_eq_ref_every_interleaving run g3 hv (replay_run _ _ _ h) he
+
+/-- a purge of a generation that is not yet written is NOT a step of the system (the label is refused) -/
+example : replay 3 init [.spawn 0, .links 0, .spawn 1, .purge 1 0] = none := by decide
 
 end OW.Props.C07
